@@ -235,10 +235,11 @@ func (s *SpokFile) run(stream iostream.IOStream, runner shell.Runner, force bool
 		return nil, fmt.Errorf("Could not load spok cache file at %q: %s", cachePath, err)
 	}
 
-	// Whether or not we want to update the cache after running e.g.
-	// if there were no file dependencies to update or if the task
-	// did not succeed
-	updateCache := true
+	// The digest of a task's file dependencies is recorded in the cache file as soon as that task
+	// succeeds, independently of what happens to the other tasks in the run. Before a task's commands
+	// start, it's entry is blanked out on disk so that if spok is killed part way through, the task
+	// is run again next time rather than skipped on the strength of an out of date digest
+	hasher := hash.New()
 
 	for _, taskToRun := range runOrder {
 		// Gather up all the files to be hashed into a single slice
@@ -257,19 +258,12 @@ func (s *SpokFile) run(stream iostream.IOStream, runner shell.Runner, force bool
 
 		s.logger.Debug("Task %s depends on %d files", taskToRun.Name, len(toHash))
 
-		// If the task did not declare any file dependencies, let's not
-		// update the cache, this way it will always run
-		if len(toHash) == 0 {
-			updateCache = false
-		}
+		// If the task did not declare any file dependencies, it has no entry
+		// in the cache to update, this way it will always run
+		hasFiles := len(toHash) != 0
 
-		var hasher hash.Hasher
-		if force {
-			hasher = hash.AlwaysRun{}
-		} else {
-			hasher = hash.New()
-		}
-
+		// The digest is always calculated (even with force, which only stops the task being skipped)
+		// so that the cache reflects the files the task last succeeded with
 		hashStart := time.Now()
 		currentDigest, err := hasher.Hash(toHash)
 		if err != nil {
@@ -279,11 +273,8 @@ func (s *SpokFile) run(stream iostream.IOStream, runner shell.Runner, force bool
 
 		// By the time we get here, we know the cache file will exist (even if it has no digests)
 		// so we can go ahead and load as normal. If a task is not in the cache, it means it was
-		// added to the spokfile since we last ran a cache, so add it to the current cachedState
-		cachedDigest, ok := cachedState.Get(taskToRun.Name)
-		if !ok {
-			cachedState.Set(taskToRun.Name, "")
-		}
+		// added to the spokfile since we last ran a cache, which is the same as an empty digest
+		cachedDigest, _ := cachedState.Get(taskToRun.Name)
 
 		s.logger.Debug("Task %s current checksum: %.15s cached checksum: %.15s", taskToRun.Name, currentDigest, cachedDigest)
 
@@ -291,35 +282,47 @@ func (s *SpokFile) run(stream iostream.IOStream, runner shell.Runner, force bool
 		skipped := false
 
 		switch {
-		case cachedDigest == "" || currentDigest != cachedDigest:
-			// The digest is either empty or out of date, in which case the action to be taken is the same
-			// update the cache digest and run the task
-			if updateCache {
-				cachedState.Set(taskToRun.Name, currentDigest)
-			}
-			result, err = taskToRun.Run(runner, stream, s.Env())
-			if err != nil {
-				return nil, fmt.Errorf("Task %q encountered an error: %w", taskToRun.Name, err)
-			}
-
-		case currentDigest == cachedDigest:
+		case hasFiles && !force && cachedDigest != "" && currentDigest == cachedDigest:
 			// This task has been run before and its digest has not changed, therefore
 			// we don't need to run it again
 			skipped = true
-			updateCache = false
+
+		default:
+			// The digest is either empty or out of date (or we're forced to), in which case the
+			// action to be taken is the same: run the task and record the digest if it succeeded.
+			// A task that currently has no files to hash records nothing, but must still forget
+			// a digest recorded back when it's glob patterns did match something
+			recorded := hasFiles || cachedDigest != ""
+			if recorded {
+				cachedState.Set(taskToRun.Name, "")
+				if err := cachedState.Dump(cachePath); err != nil {
+					return nil, err
+				}
+			}
+
+			result, err = taskToRun.Run(runner, stream, s.Env())
+
+			if recorded {
+				switch {
+				case err != nil || !result.Ok():
+					// It did not complete, so what we knew about it's last success still stands
+					cachedState.Set(taskToRun.Name, cachedDigest)
+				case hasFiles:
+					cachedState.Set(taskToRun.Name, currentDigest)
+				}
+				s.logger.Debug("Updating cached state")
+				if dumpErr := cachedState.Dump(cachePath); dumpErr != nil && err == nil {
+					err = dumpErr
+				}
+			}
+
+			if err != nil {
+				return nil, fmt.Errorf("Task %q encountered an error: %w", taskToRun.Name, err)
+			}
 		}
 
 		// Gather up all the task results
 		results = append(results, task.Result{CommandResults: result, Task: taskToRun.Name, Skipped: skipped})
-	}
-
-	// Only update the cache if force was not set, the task declares file dependencies
-	// and the task run was successful
-	if !force && updateCache && results.Ok() {
-		s.logger.Debug("Updating cached state")
-		if err := cachedState.Dump(cachePath); err != nil {
-			return nil, err
-		}
 	}
 
 	return results, nil
